@@ -24,7 +24,7 @@ ASSUMPTIONS = ['CachedMethods compatibility shim', 'synthetic templates carry ex
                'replacement atoms may legitimately share implicit numbers)', 'hydrogen counts of named atoms and their neighbours '
                'are recomputed by the library and judged through the valence check only']
 CONFIG = {
-    'quick': {'shards': 16, 'budget_s': 150, 'n_mols': 1200,
+    'quick': {'shards': 16, 'budget_s': 400, 'n_mols': 1200,
               'floors': {'evaluations': 6000, 'distinct_nontrivial': 900, 'applications.with-match': 1500, 'products.checked': 3000,
                          'recorder.patcher-calls': 3000, 'branch.deleted-fragment': 150, 'branch.masked': 15, 'branch.new-atom': 300,
                          'branch.identity': 200, 'documented.deprotections': 25, 'reactor.reactions': 60, 'numbering.compared': 500, 'reactor.with-spectators': 150, 'reactor.composed': 150, 'branch.stereo-requested': 40, 'products.labels-revalidated': 2500}},
